@@ -1,6 +1,6 @@
 SPECIFICATION Spec
 CONSTANTS
-  Profiles = {"hstatus", "htoken", "jclass", "jsig", "jplace", "jexcl"}
+  Profiles = {"hstatus", "htoken", "jclass", "jsig", "jplace", "jexcl", "jseq", "hseq"}
   Big = FALSE
 INVARIANT ImplSatisfiesProp
 INVARIANT RedirectDiverges
